@@ -129,12 +129,32 @@ theorem filter_length (nat : List Assoc) (hnd : (nat.map (·.client)).Nodup) (a 
       simp [List.filter_cons, hne]
       omega
 
+/-- a refused send changes neither the additions nor the removals reported -/
+theorem countP_failSend (effs : List Eff) :
+    countP isNatAdd (failSend effs) = countP isNatAdd effs ∧ countP isNatRemove (failSend effs) = countP isNatRemove effs := by
+  induction effs with
+  | nil => simp [failSend, countP]
+  | cons e rest ih =>
+    have h1 : countP isNatAdd (failSend rest) = countP isNatAdd rest := ih.1
+    have h2 : countP isNatRemove (failSend rest) = countP isNatRemove rest := ih.2
+    unfold failSend at h1 h2 ⊢
+    cases e <;> simp [countP, List.filterMap_cons, List.filter_cons, isNatAdd, isNatRemove] at h1 h2 ⊢ <;>
+      first | (constructor <;> omega) | (split <;> simp [isNatAdd, isNatRemove] <;> constructor <;> omega)
+
 /-- per step: associations added − associations removed = change of the table size -/
 theorem step_balance (c : Cfg) (st : State) (inv : NatInv st) (o : UDP.Op) :
     countP isNatAdd (stepOp c st o).2 + st.nat.length = countP isNatRemove (stepOp c st o).2 + (stepOp c st o).1.nat.length := by
   cases o with
   | pkt client cip wire opens plain resolve =>
     simp only [stepOp]
+    rcases upstream_cases c.validate resolve c.dnsPort c.ki st client cip wire opens plain with
+      ⟨hn, _, h⟩ | ⟨hn, l', s, _, h⟩ | ⟨hn, l', e, pl, ip, port, _, _, _, h⟩ | ⟨a, hn, _, pl, ip, port, _, h⟩ |
+      ⟨a, hn, _, s, _, hs, h⟩ | ⟨a, hn, _, h⟩
+    all_goals (rw [h]; simp [countP, List.filter, isNatAdd, isNatRemove, updateAssoc])
+    all_goals (try omega)
+  | pktFail client cip wire opens plain resolve =>
+    simp only [stepOp]
+    rw [(countP_failSend _).1, (countP_failSend _).2]
     rcases upstream_cases c.validate resolve c.dnsPort c.ki st client cip wire opens plain with
       ⟨hn, _, h⟩ | ⟨hn, l', s, _, h⟩ | ⟨hn, l', e, pl, ip, port, _, _, _, h⟩ | ⟨a, hn, _, pl, ip, port, _, h⟩ |
       ⟨a, hn, _, s, _, hs, h⟩ | ⟨a, hn, _, h⟩
@@ -176,6 +196,7 @@ theorem step_balance (c : Cfg) (st : State) (inv : NatInv st) (o : UDP.Op) :
 theorem step_inv (c : Cfg) (st : State) (inv : NatInv st) (o : UDP.Op) : NatInv (stepOp c st o).1 := by
   cases o with
   | pkt client cip wire opens plain resolve => exact inv.upstream _ _ _ _ _ _ _ _ _
+  | pktFail client cip wire opens plain resolve => exact inv.upstream _ _ _ _ _ _ _ _ _
   | reply client srcIP srcPort body =>
     simp only [stepOp]
     cases hn : lookupNat st.nat client with
